@@ -92,6 +92,12 @@ def run(tier):
             sets.append(("c_8", col("o_2", f"d{i}")))
         where = P(rnd.choice(["in", "exists"]), colref=col("k_1", src.key()), query=sub)
         extra.append(Stmt("update", Base(f"tb_ut{i}"), None, None, {"set": sets, "from": frm, "where": where}))
+    for i in range(12 if tier == "quick" else 100):
+        # MERGE whose target carries an alias and whose UPDATE SET reads the matched target row through it (beside source columns)
+        tal = f"t{i}"
+        tgt = Base(f"tb_mt{i}", rnd.choice([None, "sa"]), tal, use_as=bool(i % 2))
+        src = Base(f"tb_ms{i}", None, f"s{i}")
+        extra.append(Stmt("merge", tgt, None, None, {"source": src, "update": [("c_1", "c_1")], "self": [("c_9", col("c_2", tal))], "insert": [("k_1", "k_1")] if i % 2 else []}))
     # CTEs that read themselves without the RECURSIVE keyword (the only spelling tsql / oracle / db2 have): the self reference is the CTE under any name
     from . import c01 as _c01
     extra += [st_ for _, st_, _ds in _c01.recursive_cte_cases(12 if tier == "quick" else 100, common.env.seed() * 7 + 5)]
